@@ -337,7 +337,7 @@ def judge_call(case, resp):
 
 def call_req(transport, proto, args, reply, reqlimit=0, resplimit=0, method="echo", hdrs=None, rhdrs=None):
     q = {"op": "call", "transport": transport, "proto": proto, "args": args, "reply": reply, "method": method,
-         "followup": True, "timeout_ms": 1500}
+         "followup": True, "timeout_ms": 4000}
     if reqlimit:
         q["reqlimit"] = reqlimit
     if resplimit:
@@ -415,7 +415,7 @@ def plan(ctx):
     quick = ctx.tier == "quick"
     shapes = []
     targets = [16, 64, 1000, 65536] if quick else [16, 64, 300, 1000, 5000, 65536, 300000]
-    n_shapes = 48 if quick else 260
+    n_shapes = 48 if quick else 420
     for i in range(n_shapes):
         kind = BIG_KINDS[i % len(BIG_KINDS)]
         pos = POSITIONS[(i // len(BIG_KINDS) + i) % 3]
@@ -490,7 +490,7 @@ def run(ctx, br):
     # --- constants
     cases.append({"kind": "consts", "req": {"op": "consts"}})
     # --- buffer traces
-    cases += gen_buf_cases(rng, 400 if quick else 4000)
+    cases += gen_buf_cases(rng, 400 if quick else 6000)
 
     # --- round 1: probes
     shapes = plan(ctx)
@@ -506,7 +506,7 @@ def run(ctx, br):
                        "req": pub_req("stomp", s["proto"], args)})
     # NATS probes: large part just under 1 MiB so that varint / digit counts are already right
     nats_shapes = []
-    n_nats = 12 if quick else 60
+    n_nats = 12 if quick else 100
     for i in range(n_nats):
         kind = ["str", "bin", "list_str", "map", "struct", "list_bin", "set_str"][i % 7]
         pos = POSITIONS[i % 3]
@@ -599,7 +599,7 @@ def run(ctx, br):
         main.append({"kind": "pub", "meta": {"role": "nats-bare", "proto": proto},
                      "req": pub_req("nats", proto, ["str", 1000])})
     # random limits far from the message size (both sides), random shapes
-    for i in range(20 if quick else 400):
+    for i in range(20 if quick else 800):
         proto = rng.choice(PROTOS)
         a = shaped_struct(rng, rng.choice(BIG_KINDS), rng.choice(POSITIONS), rng.choice([0, 1, 10, 200, 3000]), rng.choice([1, 2, 4]))
         b = shaped_struct(rng, rng.choice(BIG_KINDS), rng.choice(POSITIONS), rng.choice([0, 1, 10, 200, 3000]), rng.choice([1, 2, 4]), result=True)
